@@ -569,6 +569,13 @@ class Box:
 """
 
 
+def _same_thrice(Box, Item):
+    b, shared = Box(), Item(v=1, note="keep")
+    for _ in range(3):
+        b.with_item(shared, _inplace=True)
+    return b
+
+
 def run_directed(ctx):
     """
     Addressing by value finds the element that *equals* the look-up value; the operation then applies to the stored
@@ -621,6 +628,9 @@ def run_directed(ctx):
         ("with_hmap('a', 'b') [bare key, init=False key]", lambda: Box(), lambda b, ip: b.with_hmap("a", "b", _inplace=ip), lambda b: [(k, i.k, i.v) for k, i in b.hmaps.items()], [("a", "b", 0)]),
         ("with_hmap('a', v=2) [no key given, init=False key]", lambda: Box(), lambda b, ip: b.with_hmap("a", v=2, _inplace=ip), lambda b: [(k, i.k, i.v) for k, i in b.hmaps.items()], [("a", "none", 2)]),
         ("with_hitem(v=3) [no key given, init=False key]", lambda: Box(), lambda b, ip: b.with_hitem(v=3, _inplace=ip), lambda b: [(i.k, i.v) for i in b.hitems], [("none", 3)]),
+        # one element object stored at several positions (in-place with_<item> stores what it is given): an update addresses one position
+        ("update_item(0, v=5) [one object at three positions]", lambda: _same_thrice(Box, Item), lambda b, ip: b.update_item(0, v=5, _by_index=True, _inplace=ip), lambda b: [i.v for i in b.items], [5, 1, 1]),
+        ("transform_item(1, v=inc) [one object at three positions]", lambda: _same_thrice(Box, Item), lambda b, ip: b.transform_item(1, v=lambda x: x + 1, _by_index=True, _inplace=ip), lambda b: [i.v for i in b.items], [1, 2, 1]),
         ("without_item(equal probe)", lambda: Box(items=[Item(v=1, note="keep"), Item(v=2, note="other")]), lambda b, ip: b.without_item(Item(v=1), _by_index=False, _inplace=ip),
          lambda b: [(i.v, i.note) for i in b.items], [(2, "other")]),
     ]
